@@ -35,6 +35,7 @@ def run(ctx: Ctx) -> Result:
         seed = rng.choice([V.rbytes(rng, rng.choice([1, 3, 16, 32, 33, 40, 64, 100])), b'', None, b'fixed-seed', b'fixed-seed', b'route-prefix-of-thirty-two-bytes!' + bytes([rng.randrange(4)]), b'route-prefix-of-thirty-two-bytes!' + V.rbytes(rng, 8)])
         histories.append((n, seed))
     prev_by_seed = {}
+    seedless_seen = {}
     for n, seed in histories:
         res.note_case(('setup', n, seed, len(prev_by_seed)))
         inp = {'n': n, 'seed': None if seed is None else seed.hex(), 'earlier_setups_in_process': len(prev_by_seed)}
@@ -43,6 +44,13 @@ def run(ctx: Ctx) -> Result:
         except BaseException as e:
             viol('AMHL.setup raised', inp, 'a setup', type(e).__name__); continue
         y, Y = s
+        if not seed:
+            # no seed: the secrets are drawn at random for THIS setup - two seedless setups in one process never share a secret
+            # ("a scalar from any other chain does not" open a lock would otherwise fail by construction)
+            prev_ = seedless_seen.get(bytes(y[0])) if len(y) else None
+            if prev_ is not None:
+                viol('two seedless setups in one process drew the same secrets: the scalars of one chain open the other chain\'s locks', {**inp, 'earlier_seedless_setup': prev_}, 'fresh random secrets per setup', y[0].hex())
+            for y_ in y: seedless_seen[bytes(y_)] = len(seedless_seen)
         if len(y) != n or len(Y) != n:
             viol('AMHL.setup length', inp, f'{n} scalars and {n} points', f'{len(y)} / {len(Y)}'); continue
         if seed:
